@@ -96,7 +96,8 @@ class ConnectionManager:
             self.connected.clear()
             self.connected_since = None
 
-        for connection_state_change_cb in self._connection_state_changed_cbs:
+        # iterate over a copy - a callback may (un)register callbacks
+        for connection_state_change_cb in tuple(self._connection_state_changed_cbs):
             connection_state_change_cb(state)
 
     @property
